@@ -242,11 +242,11 @@ def worklist_part(ctx, cases):
         if allfin:
             body += "Eval vm_compute in (universe_closedb (polar_step cm0 fp0 T0) (reduced_universe T0), prod_sizes T0).\n"
         files.append((f"wl_{j}", body))
-        kept.append((text, m, pm, symbols, allfin))
+        kept.append((text, m, pm, symbols, allfin, {x: vs[0] for x, vs in nt.items() if len(set(vs)) == 1}))
     outs = lib.coq_run_many(ctx, files, timeout=ctx.pick(75, 300))
     agree = 0
     n_fin = 0
-    for (name, _), (text, m, pm, symbols, allfin) in zip(files, kept):
+    for (name, _), (text, m, pm, symbols, allfin, single) in zip(files, kept):
         ok, o = outs[name]
         o = re.sub(r"\s+", " ", o)
         mm = re.search(r"=\s*\((true|false),\s*(\[.*?\])\)\s*:\s*bool \* list", o, re.S) if ok else None
@@ -262,8 +262,17 @@ def worklist_part(ctx, cases):
             if items:
                 model_ms.add(tuple(sorted((x, int(k)) for x, k in items if x not in sym)))
         polar_ms = {tuple(sorted((x, k) for x, k in d.items() if x not in sym)) for d in pm}
-        model_ms.discard(())
-        polar_ms.discard(())
+        # a variable with a singleton type is a constant: the model reduces it away (x^k mod (x - v) = v^k), Polar's
+        # Finite.reduce_power keeps the first power; compare modulo these constant factors
+        def modulo_constants(ms):
+            out = set()
+            for mono_ in ms:
+                if any(x in single and single[x] == 0 for x, _ in mono_):
+                    continue
+                out.add(tuple((x, k) for x, k in mono_ if x not in single))
+            out.discard(())
+            return out
+        model_ms, polar_ms = modulo_constants(model_ms), modulo_constants(polar_ms)
         if mm.group(1) != "true":
             ctx.violation(f"worklist-model-fuel:{text}:{m}", {"program_text": text, "goal": m, "polar_monomials": sorted(polar_ms)},
                           f"Polar returned a system of {len(pm)} monomials for {m} but the Coq worklist does not terminate "
